@@ -10,7 +10,7 @@
     whose clocks have not passed [T] — "no deadline falls due while the log is being replicated".
     Without that guard the statement is false in the code as it is: see the [_refuted] theorems. *)
 From stdpp Require Import gmap strings.
-From EV Require Import Model.RaftRun.
+From EV Require Import Model.RaftRun Proofs.GossipQueue.
 From EV Require Import Base.Str Model.Value Model.Keyspace Model.Reply Model.Prog Model.CmdSet Model.AbsForm Model.Raft.
 From EV Require Import Proofs.RaftLemmas Proofs.RaftDet Proofs.RaftClasses Proofs.RaftProofs Proofs.ProgLemmas.
 From EV Require Import Model.TableTypes Gen.CmdTable Proofs.TableObligations Proofs.HandlerClasses.
@@ -293,5 +293,13 @@ Theorem C07_forwarded_twin_collapses_refuted :
   let out := run_raft ["S w nodes=2 leader=0 forward=1"; "H 1 0 5250555348 6c 78"; "H 1 0 5250555348 6c 78"; "M"; "G"; "E"]%string in
   out = ["S w"; "H +4f4b"; "H +4f4b"; "M 1"; "G0 mem=58 db0{6c=l[78]@0}v[]"; "G1 mem=58 db0{6c=l[78]@0}v[]"; "E"]%string.
 Proof. vm_compute. done. Qed.
+(** The universal form: whatever the follower's queue holds, a write handed over twice (same bytes, same database) is
+    queued once — the queue never holds two copies of a message. *)
+Theorem C07_forwarded_twin_collapses_every_queue : forall q m, enqueue (enqueue q m) m = enqueue q m.
+Proof. exact enqueue_twice. Qed.
+Theorem C07_queue_one_copy : forall q m, List.filter (fun x => msg_eqb x m) (enqueue q m) = [m].
+Proof. exact enqueue_one_copy. Qed.
+Print Assumptions C07_forwarded_twin_collapses_every_queue.
+Print Assumptions C07_queue_one_copy.
 Print Assumptions C07_forwarded_write_reapplied_refuted.
 Print Assumptions C07_forwarded_twin_collapses_refuted.
